@@ -24,10 +24,12 @@ def bounds(tier):
         return {"dense": "values 0..5, 1..6 items, 1..7 bins", "ilp": "values 0..4, 1..5 items, 1..4 bins",
                 "named formats": "dict(str names), dict(int names), names+valueof on 1..4 items",
                 "big": "values {0, 1, 2**24+1, 2**31+1, 2**32+3, 2**40+5}, 1..4 items, 1..4 bins, all partitioners and all cg configurations",
+                "count-sweep": "every numbins k in 1..24 with k-1, k, k+1, 2k+1 items over {1,2,3}: greedy/roundrobin/multifit/kk/cg x 3 objectives (+cbldm k=2, snp where items <= k+1 and k <= 6)",
                 "long-thin": "9..15 items over {1,2}, 9..12 over {1,2,3}, 9..11 over {0,1,5} and {2,3,7}, bins {2,3,4,5,7,n,n+1}, non-sorted presentation: greedy/roundrobin/multifit/kk/cg(default switches, 3 objectives)/cbldm"}
     return {"dense": "values 0..7, 1..7 items, 1..8 bins", "ilp": "values 0..5, 1..6 items, 1..4 bins",
             "named formats": "dict(str names), dict(int names), names+valueof on 1..5 items",
             "big": "values {0, 1, 2**24+1, 2**31+1, 2**32+3, 2**40+5}, 1..5 items, 1..4 bins, all partitioners and all cg configurations",
+            "count-sweep": "every numbins k in 1..70 with k-1, k, k+1, 2k+1 items over {1,2,3}: greedy/roundrobin/multifit/kk/cg x 3 objectives (+cbldm k=2, snp where items <= k+1 and k <= 6)",
             "long-thin": "9..24 items over {1,2}, 9..16 over {1,2,3}, 9..13 over {0,1,5} and {2,3,7}, bins {2,3,4,5,7,n,n+1}, non-sorted presentation: greedy/roundrobin/multifit/kk/cg(default switches, 3 objectives)/cbldm"}
 
 
@@ -54,6 +56,8 @@ def tasks(tier):
         ts.append(("big-simple", ch, 4, "dict_str"))
     for ch in spaces.chunked(scopes.long_thin_multisets(tier), 40):
         ts.append(("long-heur", ch, 0, "list"))
+    for ch in spaces.chunked(scopes.count_sweep_partition(tier), 12):
+        ts.append(("count-sweep", ch, 0, "list"))
     return ts
 
 
@@ -75,6 +79,17 @@ def _one(acc, case):
 def run_task(task):
     scope, chunk, K, fmt = task
     acc = Acc(ID, scope)
+    if scope == "count-sweep":
+        for items, k in chunk:
+            acc.point(nontrivial=(k >= 2 and len(items) >= 2))
+            cfgs = [(a, {}) for a in scopes.SIMPLE_PARTITIONERS] + [("cg", {"objective": o}) for o in scopes.CG_OBJECTIVES] + [("snp", {})]
+            if k == 2: cfgs.append(("cbldm", {}))
+            for algo, kw in cfgs:
+                if algo == "snp" and (len(items) > k + 1 or k > 6):
+                    continue          # cost bound of the harness: snp only where items <= bins + 1 and bins <= 6
+                _one(acc, {"algo": algo, "items": list(items), "k": k, "fmt": fmt, "out": "PartitionAndSumsTuple", "kw": kw})
+        acc.sample({"scope": scope, "numbins": chunk[0][1], "items": len(chunk[0][0])})
+        return acc
     for ms in chunk:
         n = len(ms)
         for k in (range(1, K + 1) if K else scopes.long_thin_bins(n)):
